@@ -624,7 +624,7 @@ BOUND = 'columns <= 4, rows <= 3, 12 column kinds, 18 operations, ddof in {0, 1}
 
 def _run(repo, task, which, name):
     tier = task.get('tier', 'quick')
-    rep = Rep(name, task, rule=RULE, bound=BOUND, budget_s=38 if tier == 'quick' else 580)
+    rep = Rep(name, task, rule=RULE + ' Added: complex128 columns in all-numeric frames of >= 2 rows (sum/prod/mean/median/all/any judged per vector; layout independence for every reduction).', bound=BOUND, budget_s=38 if tier == 'quick' else 580)
     cases = []
     if 'frame' in which:
         cases += list(frame_cases(tier))
